@@ -473,7 +473,8 @@ theorem C28_full_uniform_newlines (f f' : FileS) (op : AnyOp) (_h : applyAny f o
     (hbom : noBomHead (render f'.toFile.events) = true) (hcr : (render f'.toFile.events).getLast? ≠ some 13)
     (hfin : f'.toFile.normal = true ∨
       (f'.toFile.aug = f'.toFile.events ++ [.newline (detectNewline f'.toFile)] ∧
-        ∃ e, f'.toFile.events.getLast? = some e ∧ (isValueEnd e = true ∨ evIsWs e = true ∨ isHeaderEv e = true))) :
+        ∃ e, f'.toFile.events.getLast? = some e ∧ (isValueEnd e = true ∨ evIsWs e = true ∨ isHeaderEv e = true ∨
+          (isComment e = true ∧ detectNewline f'.toFile = [10])))) :
     ∃ g, load f'.write = some g ∧ g.view = f'.view ∧ g.comments = f'.comments :=
   reparse_edited f' hs hbom hcr hfin
 
